@@ -334,7 +334,13 @@ def observe_side(st, p, side):
             comp = ent.components
             rec["own"] = {"Property groups": N(pgs), "components": None if comp is None else {k: len(v) for k, v in sorted(comp.items())}}
     other = st.partner(ent)
-    rec["partner"] = None if other is None else str(other.uid)
+    if other is None:
+        rec["partner"] = None
+    elif st.spec["tx"] is not None and other is not st.ent(p, 1 - side):
+        # same uid is not enough: a cross-workspace copy may share uids with its source
+        rec["partner"] = f"another object ({type(other).__name__} {other.uid})"
+    else:
+        rec["partner"] = str(other.uid)
     return rec
 
 
